@@ -2,10 +2,18 @@
 // License, v. 2.0. If a copy of the MPL was not distributed with this
 // file, You can obtain one at https://mozilla.org/MPL/2.0/.
 
+#[cfg(rink_verif_sim)]
+use simkit::shim::alloc::{AtomicUsize, Ordering, System};
+#[cfg(not(rink_verif_sim))]
 use std::{
     alloc::{GlobalAlloc, Layout, System},
     ptr,
     sync::atomic::{AtomicUsize, Ordering},
+};
+#[cfg(rink_verif_sim)]
+use std::{
+    alloc::{GlobalAlloc, Layout},
+    ptr,
 };
 
 /// Wraps an allocator, adding memory use limits and tracking for peak
